@@ -17,8 +17,12 @@ func readJSON[T any](body io.Reader) (T, error) {
 }
 
 func writeJSONError(w http.ResponseWriter, err error) error {
+	return writeJSONErrorWithStatus(w, http.StatusInternalServerError, err)
+}
+
+func writeJSONErrorWithStatus(w http.ResponseWriter, status int, err error) error {
 	w.Header().Set("Content-Type", string(JsonContentType))
-	w.WriteHeader(http.StatusInternalServerError)
+	w.WriteHeader(status)
 	_, err = w.Write([]byte(fmt.Sprintf(`{"error": "%s"}`, err.Error())))
 	return err
 }
